@@ -26,16 +26,16 @@ Table2 == [prec : Prec, info : Inf, glob : {"all", "nomatch"}]
 LevelOpts == {<<>>} \cup {<<t>> : t \in Table1}
                \cup (IF MaxTables >= 2 THEN {<<t, u>> : t \in Table2, u \in Table2} ELSE {})
 
-VARIABLES own, dot, chain, dep5, phase
-vars == <<own, dot, chain, dep5, phase>>
+VARIABLES own, dot, chain, dep5, phase, step
+vars == <<own, dot, chain, dep5, phase, step>>
 
 Chains == {[k \in 1..3 |-> IF k <= Depth THEN c[k] ELSE <<>>] : c \in [1..Depth -> LevelOpts]}
 Dep5s  == IF WithDep5 THEN {"match", "nomatch"} ELSE {}
 NoChain == [k \in 1..3 |-> <<>>]
 (* Two steps so that TLC's workers share the enumeration: first the file, then its  *)
 (* configuration.  Cases are the states with phase = "case".                        *)
-Init == /\ own \in Own /\ dot \in Dot /\ chain = NoChain /\ dep5 = "none" /\ phase = "file"
-Next == /\ phase = "file" /\ phase' = "case" /\ UNCHANGED <<own, dot>>
+Init == /\ own \in Own /\ dot \in Dot /\ chain = NoChain /\ dep5 = "none" /\ phase = "file" /\ step = 0
+Next == /\ phase = "file" /\ phase' = "case" /\ UNCHANGED <<own, dot, step>>
         /\ \/ chain' \in Chains /\ dep5' = "none"
            \/ chain' = NoChain /\ dep5' \in Dep5s
 Spec == Init /\ [][Next]_vars
@@ -43,10 +43,10 @@ Spec == Init /\ [][Next]_vars
 (* seeded sampling of the same space (tlc -seed S -workers 1): a random walk whose  *)
 (* every state is an independent random case *)
 CONSTANT SampleN
-SampleInit == own = "none" /\ dot = "absent" /\ chain = NoChain /\ dep5 = "none" /\ phase = "file"
+SampleInit == own = "none" /\ dot = "absent" /\ chain = NoChain /\ dep5 = "none" /\ phase = "file" /\ step = 0
 SampleNext == /\ own' = RandomElement(Own) /\ dot' = RandomElement(Dot)
               /\ chain' = [k \in 1..3 |-> IF k <= Depth THEN RandomElement(LevelOpts) ELSE <<>>]
-              /\ dep5' = "none" /\ phase' = "case"
+              /\ dep5' = "none" /\ phase' = "case" /\ step' = step + 1
 SampleSpec == SampleInit /\ [][SampleNext]_vars
 SampleBound == TLCGet("level") <= SampleN
 
